@@ -17,6 +17,7 @@ package main
 
 import (
 	"context"
+	"errors"
 	"fmt"
 	"os"
 	"regexp"
@@ -35,6 +36,9 @@ type ctxKey struct{}
 
 const (
 	callerMark = "caller"
+	// noMark: the handle is bound to a bare context.Background()/TODO(): the
+	// driver must see a context without any marker value.
+	noMark = "<none>"
 	outerMark  = "outer"
 )
 
@@ -55,6 +59,9 @@ type Case struct {
 	Use            string `json:"use,omitempty"`
 	OtherFirst     bool   `json:"other_handle_used_first,omitempty"`
 	OtherCancelled bool   `json:"other_context_cancelled,omitempty"`
+	// Bare ("Background" | "TODO"): the child is re-bound to the bare
+	// context.Background() / context.TODO() instead of a marked context.
+	Bare string `json:"child_rebound_to_bare,omitempty"`
 	Readable       string `json:"readable,omitempty"`
 }
 
@@ -66,6 +73,9 @@ func (c Case) String() string {
 	s := fmt.Sprintf("%s | handle=%s wrap=%s PrepareStmt=%s %s dialect=%s skipDefaultTx=%v", c.Op, c.Handle, c.Wrap, c.Prepare, ctx, c.Dialect, c.SkipTx)
 	if c.Derive != "" {
 		s += fmt.Sprintf(" | history: parent; child := parent.%s; operation on the %s (other handle used first=%v, other context cancelled=%v)", c.Derive, c.Use, c.OtherFirst, c.OtherCancelled)
+		if c.Bare != "" {
+			s += " child context = bare context." + c.Bare + "()"
+		}
 	}
 	return s
 }
@@ -179,6 +189,12 @@ type result struct {
 
 var spName = regexp.MustCompile(`sp\d+`)
 
+// watchdog only separates "never returns" from "returns": it is far above any
+// stall a loaded machine can cause (a 30s limit produced false alarms at load
+// average > 100), and the tier deadline stops workers from starting new cases,
+// so a real deadlock costs each worker at most one such wait.
+const watchdog = 5 * time.Minute
+
 // execute runs one case under a watchdog: an operation that does not return
 // (deadlock inside gorm / database/sql) is reported instead of hanging the run.
 func execute(c Case) *result {
@@ -187,7 +203,7 @@ func execute(c Case) *result {
 	select {
 	case r := <-done:
 		return r
-	case <-time.After(30 * time.Second):
+	case <-time.After(watchdog):
 		return &result{hung: true}
 	}
 }
@@ -221,6 +237,14 @@ func executeRaw(c Case) *result {
 		cancel()
 	}
 	outerCtx := context.WithValue(context.Background(), ctxKey{}, outerMark)
+	bare := context.Background()
+	if c.Bare == "TODO" {
+		bare = context.TODO()
+	}
+	innerWant := callerMark
+	if c.Bare != "" && c.Use == "child" {
+		ctx, innerWant = bare, noMark
+	}
 
 	// [from,to) is the range of driver events issued on behalf of the handle
 	// bound to ctx; events outside belong to the surrounding transaction that
@@ -246,6 +270,9 @@ func executeRaw(c Case) *result {
 			outerWant = outerMark
 			if !k.own {
 				outerWant = callerMark
+			}
+			if c.Bare != "" && c.Use == "parent" {
+				otherCtx, outerWant = bare, noMark
 			}
 			finish := func(child *gorm.DB, err error) {
 				if !k.tx || child.Error != nil {
@@ -391,12 +418,16 @@ func executeRaw(c Case) *result {
 			e.mark = ev.Ctx.Value(ctxKey{})
 		}
 		if e.inRange {
-			e.want = callerMark
+			e.want = innerWant
 		} else {
 			e.want = outerWant
 		}
 		r.events = append(r.events, e)
-		if e.want != "" && (!e.hasCtx || e.mark != e.want) {
+		if e.want == noMark {
+			if !e.hasCtx || e.mark != nil {
+				r.bad = append(r.bad, fmt.Sprintf("%s %q received context marker %v, expected a context without marker (handle re-bound to the bare context)", e.kind, short(e.sql), e.mark))
+			}
+		} else if e.want != "" && (!e.hasCtx || e.mark != e.want) {
 			r.bad = append(r.bad, fmt.Sprintf("%s %q received context marker %v, expected %q", e.kind, short(e.sql), e.mark, e.want))
 		}
 		if !e.inRange {
@@ -433,6 +464,9 @@ func tags(c Case) []string {
 	}
 	if c.Derive != "" {
 		t = append(t, "derive:"+c.Derive, "use:"+c.Use)
+		if c.Bare != "" {
+			t = append(t, "child-rebound-to-bare-"+c.Bare)
+		}
 	}
 	return t
 }
@@ -444,7 +478,7 @@ type finding struct{ aspect, msg string }
 
 func verdicts(c Case, r *result) []finding {
 	if r.hung {
-		return []finding{{"hang", "the operation did not return within 30s (deadlock)"}}
+		return []finding{{"hang", "the operation did not return within 5 minutes (deadlock)"}}
 	}
 	var out []finding
 	if c.Cancelled {
@@ -460,6 +494,9 @@ func verdicts(c Case, r *result) []finding {
 	}
 	if len(r.bad) > 0 {
 		out = append(out, finding{"marker", "a driver call did not carry the caller's context\n" + strings.Join(r.bad, "\n")})
+	}
+	if !c.Cancelled && r.err != nil && (errors.Is(r.err, context.Canceled) || strings.Contains(r.err.Error(), "context canceled")) {
+		out = append(out, finding{"live-refused", "an operation started from a handle whose own context is live was refused with a cancellation (another handle's context leaked into it)\nerr=" + r.err.Error()})
 	}
 	if r.panicMsg != "" && !c.Cancelled {
 		out = append(out, finding{"panic", "panic inside gorm while running an operation under a live context\n" + r.panicMsg})
@@ -495,6 +532,7 @@ type stats struct {
 	multi, opErrors, panics, cancelledWithoutErr       int64
 	liveWithInternalSession, insideTx, cancelledBlocks int64
 	histories, parentAfterChild, liveBesideCancelled   int64
+	bareChild                                          int64
 }
 
 func main() {
@@ -585,7 +623,21 @@ func main() {
 				for _, use := range []string{"parent", "child"} {
 					for _, first := range []bool{false, true} {
 						for _, w := range []string{"direct", "tx-depth1"} {
-							for _, p := range prepares {
+							for _, p := range []string{"off", "config"} {
+								if k.own && hd == "WithContext" {
+									// re-binding the child to the bare context.Background()/TODO()
+									for _, b := range []string{"Background", "TODO"} {
+										cvs := [][2]bool{{false, false}, {false, true}} // child used: parent live / cancelled
+										if use == "parent" {
+											cvs = [][2]bool{{false, false}, {true, false}} // parent used: live / cancelled
+										}
+										for _, cv := range cvs {
+											cases = append(cases, Case{Op: op.Name, Handle: hd, Wrap: w, Prepare: p, Cancelled: cv[0], Dialect: "returning",
+												Derive: k.name, Use: use, OtherFirst: first, OtherCancelled: cv[1], Bare: b})
+											nHist++
+										}
+									}
+								}
 								for _, cv := range [][2]bool{{false, false}, {true, false}, {false, true}} {
 									if cv[1] && !k.own {
 										continue // one shared context: there is no other one to cancel
@@ -635,6 +687,9 @@ func main() {
 					atomic.AddInt64(&st.histories, 1)
 					if !c.Cancelled && c.Use == "parent" && r.statements > 0 {
 						atomic.AddInt64(&st.parentAfterChild, 1)
+					}
+					if c.Bare != "" && c.Use == "child" && r.statements > 0 {
+						atomic.AddInt64(&st.bareChild, 1)
 					}
 					if !c.Cancelled && c.OtherCancelled && r.statements > 0 {
 						atomic.AddInt64(&st.liveBesideCancelled, 1)
@@ -704,6 +759,9 @@ func main() {
 		if st.begins < 500 || st.prepares < 500 || st.stmtCalls < 500 {
 			run.HarnessError("vacuous: begins=%d prepares=%d prepared-statement calls=%d checked", st.begins, st.prepares, st.stmtCalls)
 		}
+		if st.bareChild < 300 {
+			run.HarnessError("vacuous: only %d operations ran from a child re-bound to the bare context", st.bareChild)
+		}
 		if st.parentAfterChild < 500 || st.liveBesideCancelled < 300 {
 			run.HarnessError("vacuous: handle-derivation histories: %d live operations on a parent after deriving a child, %d live operations beside a cancelled sibling context", st.parentAfterChild, st.liveBesideCancelled)
 		}
@@ -719,13 +777,14 @@ func main() {
 	run.Finish(map[string]interface{}{
 		"evaluations":         st.cases,
 		"distinct_nontrivial": distinct.Len(),
-		"rule":                fmt.Sprintf("every operation of the catalogue (%d: %d writes, reads/preloads/joins/FindInBatches/raw, association mode) x handle binding %v x wrapper %v x PrepareStmt %v x {live, already cancelled} context x dialector %v x SkipDefaultTransaction %v, plus handle-derivation histories (parent bound to one context; child := parent.<%d derivation kinds: Session{NewDB,Context}, Session{Context}, WithContext, Session{PrepareStmt,Context}, …, Begin, Debug>, bound to another context unless the kind shares it; optionally the other handle used first; the operation started from the parent or from the child; either context already cancelled) for %d operations x wrappers direct/tx-depth1, each executed on a fresh database; every begin/prepare/exec/query/stmt_exec/stmt_query event of the recording driver is checked for the caller's marker value; non-trivial = distinct live-context cases in which the driver saw >= 2 statements on behalf of the operation (nested statements issued through internal sessions)", len(ops), len(opcat.Writes()), handles, wraps, prepares, dialects, skips, len(deriveKinds), histOpCount),
+		"rule":                fmt.Sprintf("every operation of the catalogue (%d: %d writes, reads/preloads/joins/FindInBatches/raw, association mode) x handle binding %v x wrapper %v x PrepareStmt %v x {live, already cancelled} context x dialector %v x SkipDefaultTransaction %v, plus handle-derivation histories (parent bound to one context; child := parent.<%d derivation kinds: Session{NewDB,Context}, Session{Context}, WithContext, Session{PrepareStmt,Context}, …, Begin, Debug>, bound to another marked context, or re-bound to the bare context.Background()/TODO() (then its driver calls must carry no marker and run even if the parent's context is cancelled), unless the kind shares the parent's context; optionally the other handle used first; the operation started from the parent or from the child; either context already cancelled) for %d operations x wrappers direct/tx-depth1, each executed on a fresh database; every begin/prepare/exec/query/stmt_exec/stmt_query event of the recording driver is checked for the caller's marker value; non-trivial = distinct live-context cases in which the driver saw >= 2 statements on behalf of the operation (nested statements issued through internal sessions)", len(ops), len(opcat.Writes()), handles, wraps, prepares, dialects, skips, len(deriveKinds), histOpCount),
 		"samples":             samples.List(),
 		"exhaustive":          atomic.LoadInt32(&capped) == 0,
 		"operations":          len(ops),
 		"derivation_history_cases":                        st.histories,
 		"live_operations_on_parent_after_deriving_child":  st.parentAfterChild,
 		"live_operations_beside_cancelled_other_context":  st.liveBesideCancelled,
+		"operations_from_child_rebound_to_bare_context":   st.bareChild,
 		"live_cases":          st.live,
 		"cancelled_cases":     st.cancelled,
 		"driver_calls_checked":                  st.events,
